@@ -1188,6 +1188,10 @@ type checker struct {
 	*env
 	mu        sync.Mutex
 	minimised map[string]int
+
+	cli      cliBins // engine cli: the built programs
+	cliMu    sync.Mutex
+	cliPairs map[string]bool
 }
 
 // checkReq is one function text to be sourced and judged.
@@ -1561,7 +1565,7 @@ func (c *checker) oracleProbe() {
 
 // Run is the check.
 func Run(r *mon.Run) {
-	r.Rule = "cases: payload i is generated from Rng(payload,i): 1-40 '# TABDOC:' lines (payloads 0 and 1: every fragment of the pool once as description and once as name) interleaved with comment/near-miss lines; texts are assembled from a pool of quote breakers, command substitutions, separators/redirections to canary paths, expansions, control bytes, invalid UTF-8, Unicode whitespace, random bytes (no LF, no NUL), duplicates (exact and re-spaced), prefix extensions, empty texts, lines up to 64 KiB; every 9th payload (i%9==4) additionally carries 1-4 lines LONGER than 64 KiB (64 KiB+1 ... 300 KiB; in every second such payload half of them 1 MiB+1 ... 4 MiB+1): untagged comment/near-miss blob lines and/or tagged lines whose description is that long, placed before some tagged lines (reference rows include the lines after the long one), 4 of 5 of them generated in fidelity mode; 60% of the payloads are generated free of TAB/VT/FF/0xFF and of non-space whitespace at name/description edges (row fidelity asserted, decided by a predicate on the final payload), the others are unrestricted (quote-safety only). Every payload: GenFuncList(payload) sourced alone under dash, bash and bash --posix with echo replaced by a recording function (NUL-framed; every 8th payload od-hex), cwd a fresh empty directory, PATH a stub directory; every 4th payload additionally through Converter.From (AddListFunction) on a .sh file, whole output sourced. distinct_nontrivial = distinct sets of TABDOC texts (hash) having at least one non-blank text. Where every name of a fidelity payload is printable ASCII, the listing must also be ONE table: the description column begins at the same offset in every row (rows-misaligned). ENGINE many (MANY ROWS): payload i from Rng(many,i) has 1,000 ... 20,000 tagged lines (thorough: ... 200,000; sizes from a fixed list plus 0-199), cut into regions of 100-5,500 lines each with its own range of name lengths (1-5, 3-8, 6-11, 12-28, 30-60; every third payload starts with more than 1,000 lines of names shorter than the function's own), in half of the payloads 1-3 single names of 64-103 bytes anywhere; names of printable ASCII with shell metacharacters (every 4th payload: pool fragments mixed in, then no one-table assertion), descriptions from the pool / quote breakers, 2% empty texts, filler lines; exact and re-spaced duplicates of earlier lines are placed about 512, 1024, 2048, 3000, 4096, 6000, 10000, 20000, 50000, 100000 lines (+-64) after the original where the payload is that long, between the first and the last 40 lines, and at random distances; GenFuncList (every 4th: Converter.From, whole output) sourced under ONE shell per payload by index (thorough: all three) with the stack limit raised, judged against the reference over the WHOLE payload: one row per distinct (name, description), sorted, one table. ENGINE keep: round j from Rng(keep,j) has 4-7 distinct fidelity payloads of 1-1,400 lines; by j%4: GenFuncList / Converter.From, sequential (call 1 for payload 1, then 1-6 later calls for the other payloads; every returned slice is kept, copied at once and compared with the copy after the last call; the slice kept from call 1 is then sourced and judged against payload 1) or concurrent (4 resp. 8 goroutines, 12 resp. 25 calls each; every result compared on return, and again after the goroutine's next call, with the bytes the same payload gives alone; a differing result is sourced beside the one generated alone: it is a violation only if the shell observes other words or the judge fails)"
+	r.Rule = "cases: payload i is generated from Rng(payload,i): 1-40 '# TABDOC:' lines (payloads 0 and 1: every fragment of the pool once as description and once as name) interleaved with comment/near-miss lines; texts are assembled from a pool of quote breakers, command substitutions, separators/redirections to canary paths, expansions, control bytes, invalid UTF-8, Unicode whitespace, random bytes (no LF, no NUL), duplicates (exact and re-spaced), prefix extensions, empty texts, lines up to 64 KiB; every 9th payload (i%9==4) additionally carries 1-4 lines LONGER than 64 KiB (64 KiB+1 ... 300 KiB; in every second such payload half of them 1 MiB+1 ... 4 MiB+1): untagged comment/near-miss blob lines and/or tagged lines whose description is that long, placed before some tagged lines (reference rows include the lines after the long one), 4 of 5 of them generated in fidelity mode; 60% of the payloads are generated free of TAB/VT/FF/0xFF and of non-space whitespace at name/description edges (row fidelity asserted, decided by a predicate on the final payload), the others are unrestricted (quote-safety only). Every payload: GenFuncList(payload) sourced alone under dash, bash and bash --posix with echo replaced by a recording function (NUL-framed; every 8th payload od-hex), cwd a fresh empty directory, PATH a stub directory; every 4th payload additionally through Converter.From (AddListFunction) on a .sh file, whole output sourced. distinct_nontrivial = distinct sets of TABDOC texts (hash) having at least one non-blank text. Where every name of a fidelity payload is printable ASCII, the listing must also be ONE table: the description column begins at the same offset in every row (rows-misaligned). ENGINE many (MANY ROWS): payload i from Rng(many,i) has 1,000 ... 20,000 tagged lines (thorough: ... 200,000; sizes from a fixed list plus 0-199), cut into regions of 100-5,500 lines each with its own range of name lengths (1-5, 3-8, 6-11, 12-28, 30-60; every third payload starts with more than 1,000 lines of names shorter than the function's own), in half of the payloads 1-3 single names of 64-103 bytes anywhere; names of printable ASCII with shell metacharacters (every 4th payload: pool fragments mixed in, then no one-table assertion), descriptions from the pool / quote breakers, 2% empty texts, filler lines; exact and re-spaced duplicates of earlier lines are placed about 512, 1024, 2048, 3000, 4096, 6000, 10000, 20000, 50000, 100000 lines (+-64) after the original where the payload is that long, between the first and the last 40 lines, and at random distances; GenFuncList (every 4th: Converter.From, whole output) sourced under ONE shell per payload by index (thorough: all three) with the stack limit raised, judged against the reference over the WHOLE payload: one row per distinct (name, description), sorted, one table. ENGINE keep: round j from Rng(keep,j) has 4-7 distinct fidelity payloads of 1-1,400 lines; by j%4: GenFuncList / Converter.From, sequential (call 1 for payload 1, then 1-6 later calls for the other payloads; every returned slice is kept, copied at once and compared with the copy after the last call; the slice kept from call 1 is then sourced and judged against payload 1) or concurrent (4 resp. 8 goroutines, 12 resp. 25 calls each; every result compared on return, and again after the goroutine's next call, with the bytes the same payload gives alone; a differing result is sourced beside the one generated alone: it is a violation only if the shell observes other words or the judge fails). ENGINE cli (THE WAYS A USER GETS tab_list; the real programs, built with the race detector from the working tree): case i from Rng(cli,i) writes 2-6 Ctrl+I sources (the first two one file and one directory; files named *.sh / *.subr / without a filter - sent as is, possibly without final newline -, names with spaces, %, quotes; directories with 1-4 *.sh/*.subr members, in half of them a *.pl member with TABDOC lead comments, members that are skipped: dotfiles, other names, a subdirectory) whose tagged lines are drawn from one pool per case, so that sources share lines and every source has lines of its own (4 of 5 cases in fidelity mode). (3) the shellfuncsfile tool is run with one source, with the first two in both orders by index, with ALL sources in a shuffled order (every third case one of them twice), every second case with the same single source twice; sources spelled absolute / relative / ./ / through ../; the list function left on by default or by -no-list-function=false, --no-list-function=false, -no-list-function=0, after --; for half of the lists the same sources again with -no-list-function (4 spellings; its -h promises \"Don't also generate a tab_list() function\", checked at start): that payload must have the same tagged lines and run nothing when sourced (whether it defines tab_list is only counted). (1) `curlrevshell -ctrl-i SRC -print-ctrl-i` (4 spellings, before or after the other flags, SRC a file / a directory alternately, absolute or relative). (2) for the first 2x23 (thorough 23+150) cases the real curlrevshell on a pty with -ctrl-i SRC, a fake shell attached on /i+/o or /io (always /io under -one-shell); Tab and Ctrl+I alternately; the n bytes the terminal reports as inserted are READ BY THE SHELL and are the payload; then the source is changed (lines appended / a member added) and inserted again (re-read every time). (1) and (2) run under a CONFIGURATION MATRIX of the other documented options - cell k < number of options: option k alone, then pairs (a, a+step) by index and seed, the -ctrl-i flag between the two: default, -one-shell, -serve-files-from (directory / single file / empty / name with spaces at the edges / relative through ../ / symlink), -no-timestamps, -callback-address (one / 30), -callback-template (file / symlink / missing), -tls-certificate-cache (explicit / inside the served directory), -log, CURLREVSHELL_LOG, -ipv6-one-liners, -prompt, -listen-address localhost:0, --flag=value spelling, -ctrl-i given twice (the last wins), -icanhazip (print only: without network it never listens). EVERY payload so obtained is sourced whole and alone under dash, bash and bash --posix and judged by the same oracle against the tagged lines OF THAT WHOLE PAYLOAD: one row per distinct (name, description) plus the own row, sorted, one word per echo, nothing run; a payload without any tab_list is list-function-missing"
 	r.Assumptions = []string{
 		"dash 0.5.12 and bash 5.2 (normal and --posix) stand for 'a POSIX shell'; LC_ALL=C",
 		"the property ends where the word is handed to echo: what a real echo does with backslashes or -n is not observed",
@@ -1569,6 +1573,7 @@ func Run(r *mon.Run) {
 		"non-TABDOC payload lines are comment or blank lines, so that the Converter.From output can be sourced whole without running harness text",
 		"'one table' (aligned over the whole listing) is asserted only where every name is printable ASCII, so that a column has one meaning; how wide the name column is is not asserted, only that it is the same in every row",
 		"many-rows and kept-result shells are started with `ulimit -s 1048576` (a dash wrapper that execs the shell): dash and bash recurse over a function body's command list, and bash 5.2 overflows the default 8 MiB stack somewhere between 20,000 and 40,000 echo commands - a limit of the shell, not of the listing; their watchdog is 10 min (infrastructure, inconclusive when it fires)",
+		"engine cli: curlrevshell always asks for the list function (doc/flags.md: tab_list after Ctrl+I; -print-ctrl-i prints 'what Tab/Ctrl+I would send'), the tool asks for it unless -no-list-function is given; several sources on the tool's command line are one payload (Converter.From(sources...)); a program that exits non-zero on readable sources, does not come up under a documented option or does not report the insertion within 30 s is inconclusive here (not this property); source files hold only comment lines, `name() { :; }` definitions and Perl scripts, so that the whole payload can be sourced; GORACE atexit_sleep_ms=0 for the built programs",
 		"a caller may keep the slice returned by GenFuncList / Converter.From: it must go on being the function of the payload it was generated for, whatever is generated later or at the same time (the statement speaks of THE listing function of THE payload); a change of the kept bytes is a violation only when a shell that sources them observes other words than before or the judge fails",
 	}
 	for _, sh := range shells {
@@ -1582,7 +1587,7 @@ func Run(r *mon.Run) {
 		r.Inconclusive("stub directory: " + err.Error())
 		return
 	}
-	c := &checker{env: e, minimised: map[string]int{}}
+	c := &checker{env: e, minimised: map[string]int{}, cliPairs: map[string]bool{}}
 	if !r.Replaying() {
 		c.probe()
 		c.oracleProbe()
@@ -1644,6 +1649,16 @@ func Run(r *mon.Run) {
 			})
 		}()
 	}
+	nPty := r.N(2*len(cliPtyOpts), len(cliPtyOpts)+150)
+	nCli := r.N(2*len(cliPrintOpts)+12, len(cliPrintOpts)+260)
+	if r.WantEngine("cli") {
+		wg.Add(1)
+		go func() {
+			defer wg.Done()
+			defer func() { r.Logf("engine cli done after %s", time.Since(t0).Round(time.Millisecond)) }()
+			c.cliEngine(nCli, nPty)
+		}()
+	}
 	if r.WantEngine("payload") {
 		mon.Parallel(n, runtime.NumCPU(), func(i int) {
 			if !r.Want("payload", i) {
@@ -1679,6 +1694,8 @@ func Run(r *mon.Run) {
 	r.Floor("rows_after_a_long_line_checked", int64(n))
 	r.Floor("one_table_payloads", int64(n/20))
 	r.Floor("rows_checked_for_one_table", int64(n))
+
+	cliFloors(r, nCli, nPty)
 
 	// many rows
 	m := int64(nMany)
